@@ -90,7 +90,16 @@ def c09_meshes():
     return M
 
 
-def run_integral(mods, ref, field, limit, use_volfrac, via, ctx, canary=False):
+def mirrored(mesh):
+    """The same mesh reflected along x: same box counts, same box shapes in the same listing order, the refined regions elsewhere."""
+    boxes = []
+    for l, lv in enumerate(mesh.boxes):
+        n = mesh.ncell0[0] * 2 ** l
+        boxes.append([((n - 1 - bhi[0],) + tuple(blo[1:]), (n - 1 - blo[0],) + tuple(bhi[1:])) for blo, bhi in lv])
+    return Mesh(mesh.name + '-mirrored', mesh.ndims, mesh.ncell0, boxes)
+
+
+def run_integral(mods, ref, field, limit, use_volfrac, via, ctx, canary=False, prior_ref=None):
     PlotfileCooker = mods['amr_kitchen.plotfile_cooker'].PlotfileCooker
     pestle = mods['amr_kitchen.pestle.pestle']
     cli = mods['amr_kitchen.pestle.cli']
@@ -107,6 +116,19 @@ def run_integral(mods, ref, field, limit, use_volfrac, via, ctx, canary=False):
             elif via == 'argument':
                 pck = PlotfileCooker('plt', ghost=True)
                 got = pestle.volume_integral(pck, field, limit_level=limit, use_volfrac=use_volfrac)
+            elif via == 'same-path':
+                # a history in one process: another plotfile (the mirrored mesh) is integrated under the SAME path first, then the
+                # directory is replaced (a run that rewrites its plotfile, or the same relative name seen from another directory)
+                fs.rmtree('/work/plt')
+                prior_ref.write_symfs(fs, '/work/plt')
+                try:
+                    pestle.volume_integral(PlotfileCooker('plt', ghost=True), field, use_volfrac=use_volfrac)
+                except Exception:
+                    pass
+                fs.rmtree('/work/plt')
+                ref.write_symfs(fs, '/work/plt')
+                pck = PlotfileCooker('plt', limit_level=limit, ghost=True)
+                got = pestle.volume_integral(pck, field, use_volfrac=use_volfrac)
             elif via == 'history':
                 # one retained reader object: an integral restricted to level 0 first, then the judged one
                 pck = PlotfileCooker('plt', ghost=True)
@@ -159,9 +181,12 @@ def run_case(case):
     res = CaseResult()
     mods = common.mods()
     ref = families.make_ref('p', case['mesh'], case['fields'], layout=case['layout'], geom=case['geom'])
+    prior_ref = families.make_ref('pm', mirrored(case['mesh']), case['fields'], layout=case['layout'], geom=case['geom']) if ref.nlev > 1 else None
     viol = {}
     runs = []
     for field in [ref.fields[0]]:
+        if prior_ref is not None:
+            runs.append((field, None, 'volFrac' in ref.fields, 'same-path'))
         for limit in [None] + list(range(ref.nlev)):
             for vf in ((False, True) if 'volFrac' in ref.fields else (False,)):
                 for via in ('reader', 'argument', 'cli', 'history'):
@@ -172,7 +197,7 @@ def run_case(case):
                     runs.append((field, limit, vf, via))
     for field, limit, vf, via in runs:
         def path(ctx, field=field, limit=limit, vf=vf, via=via):
-            return run_integral(mods, ref, field, limit, vf, via, ctx)
+            return run_integral(mods, ref, field, limit, vf, via, ctx, prior_ref=prior_ref)
         results, exhaustive, stats = core.explore(path, max_paths=8)
         res.add_explore(results, exhaustive, stats)
         for ctx, obl in results:
@@ -183,7 +208,7 @@ def run_case(case):
                                            'limit' if limit is not None and limit < ref.nlev - 1 else 'all-levels', via,
                                            'raises' if ('raised' in msg or 'exited' in msg) else 'value')
                 if sig not in viol:
-                    viol[sig] = {'signature': sig, 'what': msg[:300], 'args': [field, limit, vf, via], 'model': obl.failed[0][1]}
+                    viol[sig] = {'signature': sig, 'what': msg[:300], 'args': [field, limit, vf, via], 'model': obl.failed[0][1], 'prior_ref': prior_ref if via == 'same-path' else None}
 
     def canary(ctx):
         return run_integral(mods, ref, ref.fields[0], None, False, 'reader', ctx, canary=True)
@@ -220,6 +245,16 @@ def make_replay(ref, v):
         run = ("from amr_kitchen import PlotfileCooker\nfrom amr_kitchen.pestle.pestle import volume_integral\nimport contextlib, io\n"
                "with contextlib.redirect_stdout(io.StringIO()), contextlib.redirect_stderr(io.StringIO()):\n"
                "    RESULT = volume_integral(PlotfileCooker(os.path.join(IN, 'plt'), limit_level=%r, ghost=True), %r, use_volfrac=%r)\n" % (limit, field, vf))
+    elif via == 'same-path':
+        fs2 = SymFS()
+        v['prior_ref'].write_symfs(fs2, '/work/plt')
+        run = ("from amr_kitchen import PlotfileCooker\nfrom amr_kitchen.pestle.pestle import volume_integral\nimport contextlib, io, shutil\n"
+               "work = os.path.join(IN, 'work_plt')\nshutil.rmtree(work, ignore_errors=True)\nshutil.copytree(os.path.join(IN, 'plt_prior'), work)\n"
+               "with contextlib.redirect_stdout(io.StringIO()), contextlib.redirect_stderr(io.StringIO()):\n"
+               "    try:\n        volume_integral(PlotfileCooker(work, ghost=True), %r, use_volfrac=%r)\n    except Exception:\n        pass\n"
+               "    shutil.rmtree(work)\n    shutil.copytree(os.path.join(IN, 'plt'), work)\n"
+               "    RESULT = volume_integral(PlotfileCooker(work, limit_level=%r, ghost=True), %r, use_volfrac=%r)\n" % (field, vf, limit, field, vf))
+        return replay_lib.make_tool_replay('C09', v['signature'], v['what'], {'plt': (fs, '/work/plt'), 'plt_prior': (fs2, '/work/plt')}, run, {'kind': 'value', 'close': expv}, val=val)
     elif via == 'history':
         run = ("from amr_kitchen import PlotfileCooker\nfrom amr_kitchen.pestle.pestle import volume_integral\nimport contextlib, io\n"
                "with contextlib.redirect_stdout(io.StringIO()), contextlib.redirect_stderr(io.StringIO()):\n"
